@@ -2,9 +2,9 @@ package vh
 
 import (
 	"context"
-	"net"
 	"encoding/json"
 	"fmt"
+	"net"
 	"time"
 
 	"github.com/caddyserver/caddy/v2"
@@ -14,12 +14,12 @@ import (
 
 // Abstract configuration, exactly the shape of the TLA+ constant `cfg` of L4Router.
 type Matcher struct {
-	K   string      `json:"k"`   // "thr" | "not"
-	At  int         `json:"at"`  // threshold (bytes)
-	V   string      `json:"v"`   // "Y" | "N" | "E": verdict once At bytes are visible and From bytes were consumed
-	W    string     `json:"w"`    // verdict while fewer than From bytes were consumed
-	From int        `json:"from"` // stream position from which V applies
-	Sub [][]Matcher `json:"sub"` // matcher sets of a "not"
+	K    string      `json:"k"`    // "thr" | "not"
+	At   int         `json:"at"`   // threshold (bytes)
+	V    string      `json:"v"`    // "Y" | "N" | "E": verdict once At bytes are visible and From bytes were consumed
+	W    string      `json:"w"`    // verdict while fewer than From bytes were consumed
+	From int         `json:"from"` // stream position from which V applies
+	Sub  [][]Matcher `json:"sub"`  // matcher sets of a "not"
 }
 type HandlerSpec struct {
 	K string `json:"k"`
